@@ -593,14 +593,17 @@ def rule_memo_invalidation(repo: Repo) -> List[Ob]:
     for rp, qn in (("program/transformer/conditions_reducer.py", "ConditionsReducer._reduce_conditions"),
                    ("program/transformer/conditions_normalizer.py", "ConditionsNormalizer._normalize_conditions")):
         m = repo.function(rp, qn)
-        loops = [n for n in walk_no_nested(m.node) if isinstance(n, ast.For) and isinstance(n.target, ast.Name)]
+        from ..shape import expanded
+        # the section loop may have been moved into a helper of the pass: the expanded view is used only when the loop is not in the method itself
+        mx = m.node if any(isinstance(n, ast.For) and isinstance(n.target, ast.Name) for n in walk_no_nested(m.node)) else expanded(repo, m)
+        loops = [n for n in walk_no_nested(mx) if isinstance(n, ast.For) and isinstance(n.target, ast.Name)]
         key0 = f"{rp}::{qn}"
         if not loops:
             obs.append(inconclusive("B-memo", key0 + "::store", rp, m.node.lineno, qn, "section loop not recognised"))
             continue
         loop = loops[0]
         elem = loop.target.id
-        stores = [t.id for st in m.node.body if isinstance(st, (ast.Assign, ast.AnnAssign))
+        stores = [t.id for st in mx.body if isinstance(st, (ast.Assign, ast.AnnAssign))
                   for t in (st.targets if isinstance(st, ast.Assign) else [st.target])
                   if isinstance(t, ast.Name) and isinstance(st.value, ast.Dict) and not st.value.keys]
         used = [s_ for s_ in stores if any(isinstance(c, ast.Call) and any(isinstance(a, ast.Name) and a.id == s_ for a in c.args) for c in ast.walk(loop))]
@@ -609,7 +612,7 @@ def rule_memo_invalidation(repo: Repo) -> List[Ob]:
             continue
         store = used[0]
         key = f"{key0}::{store}"
-        c = cfg_of(m.node)
+        c = cfg_of(mx)
         head = next((n for n in c.nodes if n.kind == "test" and n.stmt is loop), None)
         verdict, why, fnode = None, f"`{store}` is re-bound in a way that is not recognised", None
         rebinds = [n for n in ast.walk(loop) if isinstance(n, ast.Assign) and any(isinstance(t, ast.Name) and t.id == store for t in n.targets)]
